@@ -407,6 +407,11 @@ def run(run):
             # a full reset (deactivation, load) forgets every task *and its links*: links that survive would be inherited by the tasks of
             # the next plan (a task that was never appended fires)
             run.guard('reset completeness', _c09.reset_completeness, run, F, E, 'C08.k')
+            # a fired task's request replaces whatever was in the request slot -- payload included (a payload-free task must not inherit
+            # the payload of a task fired just before it): every request writer assigns a whole request (shares C02.a)
+            from rules import c02 as _c02
+            run.guard('request writers', _c02.request_writers, run, F, E)
+            run.relabel('C02.a', 'C08.l')
             # C08.c: the scan's activity predicate
             run.guard('check is active', c06.check_is_active, run, F)
             facts.drop(F)
@@ -440,6 +445,7 @@ def run(run):
     run.floor('C08.a', 10)
     run.floor('C08.j', 20)
     run.floor('C08.k', 4)
+    run.floor('C08.l', 8)
     run.floor('C08.b', 10)
     run.floor('C08.c', 20)
     run.floor('C08.d', 40)
